@@ -714,6 +714,9 @@ wait:
 			r.patterns["schedule-aborted-on-deadlock-candidate"] = true
 			break wait
 		}
+		if r.stalled.Load() { // nothing moves any more although clients are alive: finish() gives the case up
+			break wait
+		}
 		pace(i)
 	}
 	close(stop)
@@ -725,7 +728,7 @@ wait:
 	case 1:
 		r.shutdownAsync()
 		for i := 0; ; i++ { // until Shutdown has returned or is parked waiting for the workers
-			if o := r.observe(); o.shutdown != 2 || o.deadCand() {
+			if o := r.observe(); o.shutdown != 2 || o.deadCand() || r.stalled.Load() {
 				break
 			}
 			pace(i)
